@@ -6,7 +6,6 @@ import "math/rand"
 // to 4, three keys, all flag sets that matter for the wrap decision, native callbacks, nested TRY shapes.
 type gen struct {
 	r      *rand.Rand
-	amt    int
 	budget int
 }
 
@@ -85,10 +84,8 @@ func (g *gen) block(self, d, nest int, fin bool) []Stmt {
 		case k == 4 && nest < 3:
 			out = append(out, Stmt{K: "sub", Body: g.block(self, d, nest+1, fin)})
 		case k == 3 && self >= 0 && d < 4 && r.Intn(2) == 0:
-			g.amt++
-			c, amt := r.Intn(NC), g.amt
-			body := g.blockFor(c, d+1)
-			out = append(out, Stmt{K: "pay", C: c, Amt: amt, Body: body})
+			c := r.Intn(NC)
+			out = append(out, Stmt{K: "pay", C: c, Amt: 1 + r.Intn(3), Body: g.blockFor(c, d+1)})
 		default:
 			s := g.leaf(self >= 0)
 			if self < 0 && i == 0 { // an entry script that only throws is not interesting
